@@ -331,12 +331,12 @@ impl InstructionIR {
                                 .push(QasmInstruction::MeasurementDeclaration(core_qasm_command));
                         }
                         MeasurementBasis::X => {
-                            let core_qasm_command = format!("xmeasure q[{}]", target_qubit_idx);
+                            let core_qasm_command = format!("xmeasure(q[{}])", target_qubit_idx);
                             qasm_instructions
                                 .push(QasmInstruction::MeasurementDeclaration(core_qasm_command));
                         }
                         MeasurementBasis::Y => {
-                            let core_qasm_command = format!("ymeasure q[{}]", target_qubit_idx);
+                            let core_qasm_command = format!("ymeasure(q[{}])", target_qubit_idx);
                             qasm_instructions
                                 .push(QasmInstruction::MeasurementDeclaration(core_qasm_command));
                         }
